@@ -33,6 +33,8 @@ type regJob struct {
 	MaxPaths   int              `json:"max_paths"`
 	BudgetS    int              `json:"budget_s"`
 	NoReplay   bool             `json:"no_replay"` // paths depend on engine-side environment: no differential replay
+	Overrides  map[string]string   `json:"overrides"`
+	Extra      map[string][]string `json:"extra"` // pkg dir -> harness-relative files; "@profiles" = table generated from the shipped YAML
 	Bounds     string           `json:"bounds"`
 }
 
@@ -122,6 +124,40 @@ func checkMain(args []string) int {
 		}
 	}
 
+	scratch, err := os.MkdirTemp("", "gosym-"+*prop+"-")
+	if err != nil {
+		fmt.Println("INFRA:", err)
+		return 2
+	}
+	defer os.RemoveAll(scratch)
+	profilesTable := ""
+	needProfiles := false
+	for _, j := range p.Jobs {
+		for _, fs := range j.Extra {
+			for _, f := range fs {
+				if f == "@profiles" {
+					needProfiles = true
+				}
+			}
+		}
+	}
+	if needProfiles {
+		// static table precomputed from the tree on every run (DESIGN 3.4)
+		ovp := filepath.Join(scratch, "profilegen-overlay.json")
+		ovb, _ := json.Marshal(map[string]any{"Replace": map[string]string{filepath.Join(repo, "cmd/zzverifprofilegen/main.go"): filepath.Join(root, "harness", "gen", "profilegen.go")}})
+		os.WriteFile(ovp, ovb, 0o644)
+		cmd := exec.Command("go", "run", "-overlay", ovp, "./cmd/zzverifprofilegen", filepath.Join(repo, "config", "profiles"))
+		cmd.Dir = repo
+		cmd.Env = append(os.Environ(), "GOFLAGS=-mod=mod", "GOPROXY=off")
+		out, err := cmd.Output()
+		if err != nil {
+			fmt.Println("INFRA: profile table generator failed:", err)
+			return 2
+		}
+		profilesTable = filepath.Join(scratch, "profiles_table.go")
+		os.WriteFile(profilesTable, out, 0o644)
+	}
+
 	// build job runs
 	var runs []*jobRun
 	for _, j := range p.Jobs {
@@ -150,7 +186,19 @@ func checkMain(args []string) int {
 			}
 			spec := symx.JobSpec{Property: *prop, Name: j.Name, Repo: repo, Pkg: j.Pkg, Files: files, Entry: j.Entry, Solver: solver,
 				Params: ps, MaxPaths: j.MaxPaths, BudgetS: budget, KFOpen: kfOpenIDs, Must: j.Must,
-				GosymSrc: filepath.Join(root, "harness", "gosym", "gosym.go"), Samples: 40}
+				GosymSrc: filepath.Join(root, "harness", "gosym", "gosym.go"), Samples: 40, Overrides: j.Overrides}
+			if len(j.Extra) > 0 {
+				spec.Extra = map[string][]string{}
+				for dir, fs := range j.Extra {
+					for _, f := range fs {
+						if f == "@profiles" {
+							spec.Extra[dir] = append(spec.Extra[dir], profilesTable)
+						} else {
+							spec.Extra[dir] = append(spec.Extra[dir], filepath.Join(root, "harness", f))
+						}
+					}
+				}
+			}
 			runs = append(runs, &jobRun{job: j, params: ps, spec: spec})
 		}
 	}
@@ -158,13 +206,6 @@ func checkMain(args []string) int {
 		fmt.Println("INFRA: no jobs for", *prop)
 		return 2
 	}
-	scratch, err := os.MkdirTemp("", "gosym-"+*prop+"-")
-	if err != nil {
-		fmt.Println("INFRA:", err)
-		return 2
-	}
-	defer os.RemoveAll(scratch)
-
 	self, _ := os.Executable()
 	sem := make(chan struct{}, *par)
 	var wg sync.WaitGroup
